@@ -866,6 +866,7 @@ func runAllocCase(size uint32, msize uint32) *fail {
 func init() {
 	replayRegistrars = append(replayRegistrars, func() {
 		registerReplay("C02/server-stream", func(c streamCase) *fail { return runStreamCase(c, nil) })
+		registerReplay("C02/renegotiated-limit", runRenegCase)
 		registerReplay("C02/socket-stream", runSockStreamCase)
 		registerReplay("C02/concurrent-receivers", runConcRecvCase)
 		registerReplay("C02/stream", func(c rawStreamCase) *fail { return checkStream(c.Data, c.Msize) })
@@ -935,6 +936,21 @@ func TestC02(t *testing.T) {
 		}
 	}
 
+	// the limit that applies to the first frame after a second Tversion
+	rapidCases(h, "renegotiated-limit", env.PerShard(env.Pick(4000, 160000)), func(rt *rapid.T) renegCase {
+		c := renegCase{First: rapid.SampledFrom([]uint32{4096, 8192, 65536, 1 << 20}).Draw(rt, "first"),
+			Second:  rapid.SampledFrom([]uint32{200, 4096, 8192, 65536, 1 << 20}).Draw(rt, "second"),
+			PauseUs: rapid.SampledFrom([]int{0, 50, 300, 1000, 3000}).Draw(rt, "pause"), Probes: rapid.IntRange(0, 3).Draw(rt, "probes")}
+		lo, hi := min(c.First, c.Second), max(c.First, c.Second)
+		c.Size = rapid.SampledFrom([]uint32{c.Second + 1, c.Second, c.Second - 1, lo + 1, hi, hi + 1, (lo + hi) / 2, 6, 7, 11, 23, 24}).Draw(rt, "size")
+		return c
+	}, func(c renegCase) *fail {
+		h.Case(evid.HashJSON(c), c.First != c.Second && c.Size > min(c.First, c.Second) && c.Size <= max(c.First, c.Second), "renegotiated-limit")
+		if c.First != c.Second && h.WantSample("renegotiated-limit") {
+			h.Sample("renegotiated-limit", c)
+		}
+		return runRenegCase(c)
+	})
 	rapidCases(h, "server-stream", env.PerShard(env.Pick(12000, 400000)), func(rt *rapid.T) streamCase {
 		var c streamCase
 		n := rapid.IntRange(1, 8).Draw(rt, "n")
